@@ -1,7 +1,7 @@
 /-
 C17 driver: one line of harness/cmd/c17 → the model's observation and the Spec verdict on the implementation's one.
 
-input : kind=… root=… path=… exp=reject|accept|value|cast|disc|none at=<Go field path> fk=<kind> raw=s(text)
+input : kind=… root=… path=… exp=reject|accept|value|cast|meets|num|disc|none at=<Go field path> fk=<kind> raw=s(text)
         want=<value> env=m(…) props=m(file,l(s(line),…)) cfg=<value>
 obs   : (err=<classes> | late=<classes> | ok val=<decoded value> | ok disc=<bool,…>) sch=<schema>
         (the schema is an observation too: the reflection dump of the real types; the model echoes it)
@@ -99,8 +99,9 @@ partial def toDVal (t : Term) : DVal :=
   | "l" => .slice (t.args.map toDVal)
   | "m" => .map (pairs t.args)
   | "any" => .any ((t.args.head?.map toVal).getD .null)
-  | "P" => .plugin
-  | "F" => .factory
+  -- `P` / `F`: the config the instance received was not observed; `P(conf)`; `F(conf,…)`: one per call of the factory
+  | "P" => .plugin ((t.args.head?.map toDVal).getD .opaque)
+  | "F" => if t.args.isEmpty then .factory .opaque else .factory (.slice (t.args.map toDVal))
   | "sp" => .special (sArg t)
   | _ => .opaque
 where
@@ -247,10 +248,34 @@ partial def dvalText : DVal → String
     let sorted := kvs.toArray.qsort (fun a b => String.ofList a.1 < String.ofList b.1) |>.toList
     node "m" (sorted.flatMap fun kv => [encStr kv.1, dvalText kv.2])
   | .any v => node "any" [valText v]
-  | .plugin => "P"
-  | .factory => "F"
+  | .plugin _ => "P"
+  | .factory _ => "F"
   | .special r => node "sp" [encStr r]
   | .opaque => "x"
+
+/-- the model's value printed as far as the implementation's observation looks into constructed components: where the
+implementation shows the config an instance received (`P(conf)`, probe plugins of the driver) the model's config of that
+instance is printed; where it shows `F(c₁,…,cₙ)` — the configs n calls of the factory handed out — the model's config
+is printed n times (every call decodes the same block into a fresh default config); elsewhere as `dvalText` -/
+partial def dvalTextLike (impl : DVal) (model : DVal) : String :=
+  match impl, model with
+  | .plugin .opaque, .plugin _ => "P"
+  | .plugin ic, .plugin mc => node "P" [dvalTextLike ic mc]
+  | .factory (.slice ics), .factory mc => node "F" (ics.map fun ic => dvalTextLike ic mc)
+  | .struct ifs, .struct mfs =>
+    if ifs.length == mfs.length then
+      node "st" ((ifs.zip mfs).flatMap fun p => [encStr p.2.1, dvalTextLike p.1.2 p.2.2])
+    else dvalText model
+  | .ptr iv, .ptr mv => node "ptr" [dvalTextLike iv mv]
+  | .slice ixs, .slice mxs =>
+    if ixs.length == mxs.length then node "l" ((ixs.zip mxs).map fun p => dvalTextLike p.1 p.2) else dvalText model
+  | .map ikvs, .map mkvs =>
+    let sortKV (kvs : List (Str × DVal)) := kvs.toArray.qsort (fun a b => String.ofList a.1 < String.ofList b.1) |>.toList
+    let is := sortKV ikvs
+    let ms := sortKV mkvs
+    if is.length == ms.length then node "m" ((is.zip ms).flatMap fun p => [encStr p.2.1, dvalTextLike p.1.2 p.2.2])
+    else dvalText model
+  | _, m => dvalText m
 
 def errName : ErrC → String
   | .unused => "unused" | .type => "type" | .plugintype => "plugintype" | .pluginname => "pluginname"
@@ -346,6 +371,7 @@ def parseObs (impl : String) : Obs :=
   if impl.startsWith "err=" || impl.startsWith "late=" then
     if (impl.splitOn "ctor").length > 1 || (impl.splitOn "other").length > 1 then .unknown else .rejected
   else if impl.startsWith "PANIC" then .crashed
+  else if impl.startsWith "UNSTABLE" then .unstable
   else if impl.startsWith "ok val=" then .accepted (some (toDVal (parseTerm (impl.drop 7).toString)))
   else if impl.startsWith "ok disc=" then
     let t := (impl.drop 8).toString
@@ -356,6 +382,8 @@ def failKey (kind : String) (why : String) : String :=
   let base :=
     if kind == "unknown" || kind == "misspelled" then "unknown-key-accepted"
     else if kind == "mistyped" || (kind == "libtype" && why == "accepted") then "mistyped-accepted"
+    else if kind == "inst" then "plugin-instance-config"
+    else if kind == "num" then (if why == "accepted" then "number-out-of-range-accepted" else "valid-config")
     else if kind == "cons" then (if why == "accepted" then "constraint-accepted" else "valid-config")
     else if kind == "oor" || kind == "doc" || (kind == "typeonly" && why == "accepted") then "constraint-accepted"
     else if kind == "ph-unset" || kind == "ph-noprop" || kind == "ph-nofile" then "placeholder-missing-accepted"
@@ -364,7 +392,9 @@ def failKey (kind : String) (why : String) : String :=
     else if kind.startsWith "plugin-" then "plugin-position"
     else if kind == "cli" then "cli-reader"
     else "valid-config"
-  if why == "panic" then "fail:decode-panic:panic" else s!"fail:{base}:{why}"
+  if why == "panic" then "fail:decode-panic:panic"
+  else if why == "redecode" then "fail:second-decode-differs:redecode"
+  else s!"fail:{base}:{why}"
 
 def handle : Handler := fun input implFull =>
   let kv := parseKV input
@@ -389,7 +419,11 @@ def handle : Handler := fun input implFull =>
     match out with
     | .err es => "err=" ++ classesText es
     | .late es => if isCli then "ok disc=" ++ "?" else "late=" ++ classesText es
-    | .ok v => if isCli then "ok disc=" ++ boolsText (discOf v) else "ok val=" ++ dvalText v
+    | .ok v =>
+      if isCli then "ok disc=" ++ boolsText (discOf v)
+      else "ok val=" ++ (match obs with
+        | .accepted (some iv) => dvalTextLike iv v
+        | _ => dvalText v)
   let modelObs :=
     match out, isCli with
     | .late _, true =>
@@ -409,6 +443,16 @@ def handle : Handler := fun input implFull =>
       | some k => .cast at_ k (sArg (parseTerm (getS kv "raw")))
       | none => .nothing
     | "meets" => .meets at_ consTags consVal
+    | "values" =>
+      -- want=l(p(<Go field path>,<value>),…)
+      .values ((parseTerm (getS kv "want" "l()")).args.filterMap fun t =>
+        match t.args with
+        | [a, w] => (parseAt a.name).map fun loc => (loc, toDVal w)
+        | _ => none)
+    | "num" =>
+      match parseKind (getS kv "fk") with
+      | some k => .number at_ k (toVal (parseTerm (getS kv "want" "n"))) consTags
+      | none => .nothing
     | "disc" =>
       match expectDisc cfg with
       | some ds => .disc ds
@@ -426,6 +470,7 @@ def handle : Handler := fun input implFull =>
     match obs with
     | .unknown => ("-", verdict)
     | .crashed => ("-", verdict)
+    | .unstable => ("-", verdict)
     | _ => (modelObs ++ " sch=" ++ schText, verdict)
 
 end Pandora.Drv.C17
